@@ -439,8 +439,8 @@ class MahalanobisMixin(BaseMetricLearner, MetricTransformer,
       distance : float
         The distance between u and v according to the new metric.
       """
-      u = validate_vector(u)
-      v = validate_vector(v)
+      u = validate_vector(u, dtype=float)
+      v = validate_vector(v, dtype=float)
       transformed_diff = (u - v).dot(components_T)
       dist = np.dot(transformed_diff, transformed_diff.T)
       if not squared:
